@@ -92,3 +92,28 @@ package header
 //@   requires h != nil
 //@   ensures err == nil ==> result0 != nil && result0.DAH != nil && isFresh(result0) && result0.Commit == comm && result0.ValidatorSet == vals && result0.RawHeader == deref(h)
 //@   ensures err == nil && eds != nil ==> deref(result0.DAH) == dahOf(eds)
+
+// ---------------------------------------------------------------------------------------------
+// C16: the binary form. Decoding takes every part of the header from the corresponding part of *this*
+// message and from nothing else - the raw header, the commit, the validator set and the data availability
+// header each through the library decoder applied to the message's own field - so that re-encoding
+// changes neither the verdict of Validate nor the hash; encoding writes the four parts of the header
+// given. (protobuf's byte encoding and the four library converters: A-CODEC.)
+//@ func UnmarshalExtendedHeader
+//@   property C16
+//@   noframe
+//@   only FromProto: HeaderFromProto CommitFromProto ValidatorSetFromProto DataAvailabilityHeaderFromProto
+//@   callpre types.HeaderFromProto: $arg0 == in.Header
+//@   callpre types.CommitFromProto: $arg0 == in.Commit
+//@   callpre types.ValidatorSetFromProto: $arg0 == in.ValidatorSet
+//@   callpre da.DataAvailabilityHeaderFromProto: $arg0 == in.Dah
+//@   checks err == nil ==> result0 == out
+
+//@ func MarshalExtendedHeader
+//@   property C16
+//@   noframe
+//@   requires in != nil
+//@   callpre Commit).ToProto: $arg0 == in.Commit
+//@   callpre ValidatorSet).ToProto: $arg0 == in.ValidatorSet
+//@   callpre DataAvailabilityHeader).ToProto: $arg0 == in.DAH
+//@   callpre ExtendedHeader).Marshal: $arg0 == out
